@@ -466,7 +466,9 @@ def units(prop, tier):
             out.append(pyvc_unit(prop, 'key.ecc.construct.%s' % EC.LABEL[cid], lambda cid=cid: registry(cid, tier), [K + 'construct'], weight=2))
             if cid in DECODERS:
                 out.append(pyvc_unit(prop, 'key.ecc.decode.%s' % EC.LABEL[cid], lambda cid=cid: registry(cid, tier), DECODERS[cid]))
-            out.append(pyvc_unit(prop, 'key.ecc.sec1.%s' % EC.LABEL[cid], lambda cid=cid: registry(cid, tier), [K + '_import_public_der']))
+            # SEC1 decoding is the same Python for the five NIST curves (the size and the constants differ): quick runs P-256 and the refusals
+            out.append(pyvc_unit(prop, 'key.ecc.sec1.%s' % EC.LABEL[cid], lambda cid=cid: registry(cid, tier), [K + '_import_public_der'], weight=5,
+                                 tiers=('quick', 'thorough') if cid in (3, 6, 7, 8, 9) else ('thorough',)))
     if prop == 'C13':
         out.append(pyvc_unit(prop, 'key.ecc.import_der', cascade_registry, [K + '_import_der']))
     if prop == 'C18':
